@@ -26,6 +26,16 @@ func c03Pool(e *c03Env, typ string, base any) []any {
 	hashes := [][]byte{e.u0.ScriptHash().BytesBE(), e.u1.ScriptHash().BytesBE(), e.u2.ScriptHash().BytesBE(), e.h["container"].BytesBE(), e.h["balance"].BytesBE(), make([]byte, 20), e.u1.ScriptHash().BytesBE()[:19], append(e.u2.ScriptHash().BytesBE(), 7)}
 	blobs := [][]byte{{}, e.blob.id, e.blob.value, e.blob2.id, e.blob2.value, mkEACL(e.blob2.id, 0, 2), ownerID(e.u0.ScriptHash()), ownerID(e.u1.ScriptHash()), detBytes("none", 32), make([]byte, 32), []byte("k"), []byte("id"),
 		mkEACL(e.blob.id, 0, 1), legacyInfo(e.node.Account().PublicKey().Bytes(), 1), legacyInfo(e.u1.Account().PublicKey().Bytes(), 2)}
+	// every deployed contract's own address (an account nobody can witness - but a contract can, for itself)
+	var contractNames []string
+	for name := range e.h {
+		contractNames = append(contractNames, name)
+	}
+	sort.Strings(contractNames)
+	var contractHashes [][]byte
+	for _, name := range contractNames {
+		contractHashes = append(contractHashes, e.h[name].BytesBE())
+	}
 	var out []any
 	add := func(pool [][]byte) {
 		for _, b := range pool {
@@ -45,6 +55,7 @@ func c03Pool(e *c03Env, typ string, base any) []any {
 		}
 	case "Hash160":
 		add(hashes)
+		add(contractHashes)
 	case "PublicKey":
 		add(pubs)
 	case "Hash256":
